@@ -80,6 +80,123 @@ mod proofs {
 		std::mem::forget(res);
 	}
 
+
+	// C20 (string half): io::parse_u8 on every byte string of length <= 4 that is valid UTF-8: Ok(n) exactly for an optional '+'
+	// followed by 1..3(4) decimal digits whose value is <= 255.  BOUNDED by the length (longer strings: leading zeros only).
+	#[kani::proof]
+	#[kani::unwind(6)]
+	#[kani::stub(alloc::fmt::format, fmt_stub)]
+	fn c20_parse_u8_len4() {
+		let data: [u8; 4] = kani::any();
+		let len: usize = kani::any();
+		kani::assume(len <= 4);
+		let bytes = &data[..len];
+		// ASCII only (every non-ASCII string is rejected by the real parser too, but from_utf8 on symbolic bytes is costly)
+		let mut i = 0;
+		while i < len {
+			kani::assume(data[i] < 128);
+			i += 1;
+		}
+		let s = unsafe { std::str::from_utf8_unchecked(bytes) };
+		let res = h::parse_u8(s);
+		// reference: optional '+', then at least one digit, all digits, value <= 255
+		let start = if len > 0 && data[0] == b'+' { 1 } else { 0 };
+		let mut ok = len > start;
+		let mut val: u32 = 0;
+		let mut j = start;
+		while j < len {
+			if data[j] < b'0' || data[j] > b'9' {
+				ok = false;
+			} else {
+				val = val * 10 + (data[j] - b'0') as u32;
+			}
+			j += 1;
+		}
+		if ok && val <= 255 {
+			assert!(res.is_ok());
+			assert!(*res.as_ref().ok().unwrap() as u32 == val);
+		} else {
+			assert!(res.is_err());
+		}
+		std::mem::forget(res);
+	}
+
+	// K-shim: the byteorder contracts assumed by the Verus shim (shim/core.rs, shim/write.rs), checked on the real byteorder
+	// crate: big-endian readers on a byte slice decode bytes[0..n], advance the slice by n, and fail (slice untouched in length
+	// terms irrelevant) when fewer than n bytes remain; writers on Vec<u8> append exactly the big-endian bytes.  Loop-free, all
+	// byte contents and all lengths 0..=8: complete.
+	#[kani::proof]
+	#[kani::unwind(9)]
+	fn kshim_byteorder_be() {
+		use byteorder::{ReadBytesExt, WriteBytesExt, BE};
+		let data: [u8; 8] = kani::any();
+		let len: usize = kani::any();
+		kani::assume(len <= 8);
+		{
+			let mut r: &[u8] = &data[..len];
+			let x = r.read_u8();
+			if len >= 1 { assert!(x.is_ok() && *x.as_ref().ok().unwrap() == data[0] && r.len() == len - 1); } else { assert!(x.is_err()); }
+			std::mem::forget(x);
+		}
+		{
+			let mut r: &[u8] = &data[..len];
+			let x = r.read_i8();
+			if len >= 1 { assert!(x.is_ok() && *x.as_ref().ok().unwrap() == data[0] as i8 && r.len() == len - 1); } else { assert!(x.is_err()); }
+			std::mem::forget(x);
+		}
+		{
+			let mut r: &[u8] = &data[..len];
+			let x = r.read_u16::<BE>();
+			if len >= 2 { assert!(x.is_ok() && *x.as_ref().ok().unwrap() == (data[0] as u16) * 256 + data[1] as u16 && r.len() == len - 2); } else { assert!(x.is_err()); }
+			std::mem::forget(x);
+		}
+		{
+			let mut r: &[u8] = &data[..len];
+			let x = r.read_i16::<BE>();
+			if len >= 2 { assert!(x.is_ok() && *x.as_ref().ok().unwrap() == ((data[0] as u16) * 256 + data[1] as u16) as i16 && r.len() == len - 2); } else { assert!(x.is_err()); }
+			std::mem::forget(x);
+		}
+		let be32 = (data[0] as u32) * 16777216 + (data[1] as u32) * 65536 + (data[2] as u32) * 256 + data[3] as u32;
+		{
+			let mut r: &[u8] = &data[..len];
+			let x = r.read_u32::<BE>();
+			if len >= 4 { assert!(x.is_ok() && *x.as_ref().ok().unwrap() == be32 && r.len() == len - 4); } else { assert!(x.is_err()); }
+			std::mem::forget(x);
+		}
+		{
+			let mut r: &[u8] = &data[..len];
+			let x = r.read_i32::<BE>();
+			if len >= 4 { assert!(x.is_ok() && *x.as_ref().ok().unwrap() == be32 as i32 && r.len() == len - 4); } else { assert!(x.is_err()); }
+			std::mem::forget(x);
+		}
+		{
+			// f32: carried as its bit pattern (the shim's f32_from_bits / f32_bits)
+			let mut r: &[u8] = &data[..len];
+			let x = r.read_f32::<BE>();
+			if len >= 4 { assert!(x.is_ok() && x.as_ref().ok().unwrap().to_bits() == be32 && r.len() == len - 4); } else { assert!(x.is_err()); }
+			std::mem::forget(x);
+		}
+	}
+
+	#[kani::proof]
+	fn kshim_byteorder_write_be() {
+		use byteorder::{WriteBytesExt, BE};
+		let a: u8 = kani::any();
+		let b: u16 = kani::any();
+		let c: u32 = kani::any();
+		let d: i32 = kani::any();
+		let mut w: Vec<u8> = Vec::with_capacity(16);
+		w.write_u8(a).unwrap();
+		w.write_u16::<BE>(b).unwrap();
+		w.write_u32::<BE>(c).unwrap();
+		w.write_i32::<BE>(d).unwrap();
+		assert!(w.len() == 11);
+		assert!(w[0] == a && w[1] == (b / 256) as u8 && w[2] == (b % 256) as u8);
+		assert!(w[3] == (c / 16777216) as u8 && w[4] == ((c / 65536) % 256) as u8 && w[5] == ((c / 256) % 256) as u8 && w[6] == (c % 256) as u8);
+		let du = d as u32;
+		assert!(w[7] == (du / 16777216) as u8 && w[10] == (du % 256) as u8);
+	}
+
 	// C19: fix_char on ALL Unicode scalar values
 	#[kani::proof]
 	fn c19_fix_char() {
